@@ -8,6 +8,7 @@ import (
 
 	"github.com/plgd-dev/go-coap/v3/message"
 	"github.com/plgd-dev/go-coap/v3/message/codes"
+	"github.com/plgd-dev/go-coap/v3/message/pool"
 	tcpclient "github.com/plgd-dev/go-coap/v3/tcp/client"
 	udpclient "github.com/plgd-dev/go-coap/v3/udp/client"
 
@@ -33,6 +34,7 @@ type out struct {
 	tok  []byte
 	mid  int32
 	path string
+	obs  int // value of the Observe option of the request, -1 if none
 }
 
 func runConn(transport string, l, el int) ConnRec {
@@ -40,6 +42,9 @@ func runConn(transport string, l, el int) ConnRec {
 	var pending func() []out // requests written by the connection and not yet answered
 	var answer func(o out)
 	var get func(ctx context.Context, p string) error
+	var observe func(ctx context.Context, p string) (interface {
+		Cancel(ctx context.Context, opts ...message.Option) error
+	}, error)
 	var closeFn func()
 	answered := map[string]bool{}
 	if transport == "udp" {
@@ -56,6 +61,11 @@ func runConn(transport string, l, el int) ConnRec {
 			}
 			return err
 		}
+		observe = func(ctx context.Context, p string) (interface {
+			Cancel(ctx context.Context, opts ...message.Option) error
+		}, error) {
+			return u.CC.Observe(ctx, p, func(*pool.Message) {})
+		}
 		pending = func() []out {
 			var os []out
 			for _, raw := range u.Sess.Out(0) {
@@ -64,16 +74,23 @@ func runConn(transport string, l, el int) ConnRec {
 					continue
 				}
 				p, _ := d.Opts.Path()
-				k := fmt.Sprintf("%x", d.Token)
-				if !answered[k] {
-					os = append(os, out{d.Token, d.MID, p})
+				ob := -1
+				if v, err := d.Opts.Observe(); err == nil {
+					ob = int(v)
+				}
+				if k := fmt.Sprintf("%x/%d", d.Token, ob); !answered[k] { // (a deregistration re-uses the observation's token)
+					os = append(os, out{d.Token, d.MID, p, ob})
 				}
 			}
 			return os
 		}
 		answer = func(o out) {
-			answered[fmt.Sprintf("%x", o.tok)] = true
-			_ = u.Inject(memnet.Build(message.Acknowledgement, int(codes.Content), o.mid, o.tok, nil, []byte("a")))
+			answered[fmt.Sprintf("%x/%d", o.tok, o.obs)] = true
+			var opts message.Options
+			if o.obs == 0 {
+				opts = message.Options{{ID: message.Observe, Value: []byte{1}}}
+			}
+			_ = u.Inject(memnet.Build(message.Acknowledgement, int(codes.Content), o.mid, o.tok, opts, []byte("a")))
 		}
 	} else {
 		t := conns.NewTCP(func(cfg *tcpclient.Config) {
@@ -89,6 +106,11 @@ func runConn(transport string, l, el int) ConnRec {
 			}
 			return err
 		}
+		observe = func(ctx context.Context, p string) (interface {
+			Cancel(ctx context.Context, opts ...message.Option) error
+		}, error) {
+			return t.CC.Observe(ctx, p, func(*pool.Message) {})
+		}
 		pending = func() []out {
 			var os []out
 			fs, _ := conns.Frames(t.Stream.Written(0))
@@ -97,16 +119,23 @@ func runConn(transport string, l, el int) ConnRec {
 					continue
 				}
 				p, _ := f.Opts.Path()
-				k := fmt.Sprintf("%x", f.Token)
-				if !answered[k] {
-					os = append(os, out{f.Token, 0, p})
+				ob := -1
+				if v, err := f.Opts.Observe(); err == nil {
+					ob = int(v)
+				}
+				if k := fmt.Sprintf("%x/%d", f.Token, ob); !answered[k] {
+					os = append(os, out{f.Token, 0, p, ob})
 				}
 			}
 			return os
 		}
 		answer = func(o out) {
-			answered[fmt.Sprintf("%x", o.tok)] = true
-			t.Feed(conns.Frame(int(codes.Content), o.tok, nil, []byte("a")))
+			answered[fmt.Sprintf("%x/%d", o.tok, o.obs)] = true
+			var opts message.Options
+			if o.obs == 0 {
+				opts = message.Options{{ID: message.Observe, Value: []byte{1}}}
+			}
+			t.Feed(conns.Frame(int(codes.Content), o.tok, opts, []byte("a")))
 		}
 	}
 	defer closeFn()
@@ -115,6 +144,24 @@ func runConn(transport string, l, el int) ConnRec {
 	ctx, cancel := context.WithTimeout(context.Background(), 5*time.Second)
 	defer cancel()
 	var wg sync.WaitGroup
+	// an observation registered beforehand; it is cancelled while the other requests are in flight: the deregistration
+	// is a request like any other and has to wait for its slots
+	var obsH interface {
+		Cancel(ctx context.Context, opts ...message.Option) error
+	}
+	regDone := make(chan struct{})
+	go func() {
+		defer close(regDone)
+		if o, err := observe(ctx, "/obs"); err == nil {
+			obsH = o
+		}
+	}()
+	hooks.WaitFor(time.Second, func() bool { return len(pending()) > 0 })
+	for _, o := range pending() {
+		answer(o)
+	}
+	<-regDone
+	cancelled := false
 	for _, p := range paths {
 		for k := 0; k < perPath; k++ {
 			wg.Add(1)
@@ -145,6 +192,13 @@ func runConn(transport string, l, el int) ConnRec {
 		}
 		if len(ps) > r.MaxTotal {
 			r.MaxTotal = len(ps)
+		}
+		if !cancelled && obsH != nil && len(ps) > 0 {
+			cancelled = true
+			wg.Add(1)
+			r.Calls++
+			go func() { defer wg.Done(); _ = obsH.Cancel(ctx) }()
+			continue // measure again with the deregistration competing for a slot
 		}
 		if len(ps) == 0 {
 			select {
